@@ -129,7 +129,15 @@ def generate(rng, tier):
         if u < 0.2:
             npts = rng.randint(1, 24)
             es, ns = _arr(rng, reg, npts)
-            cs.append(c_get_region(es, ns, _shape_for(rng, npts)))
+            v = rng.random()
+            if v < 0.15:       # the two axes of a grid (meshgrid=False): different lengths
+                cs.append(c_get_region(es, ns[: rng.randint(1, npts)], [npts], "get_region-axes"))
+            elif v < 0.3:      # plain Python lists / tuples
+                cs.append(c_get_region(es, ns, [npts], "get_region-lists"))
+            elif v < 0.45:     # further coordinates are ignored, whatever their shape
+                cs.append(c_get_region(es, ns, [npts], "get_region-extra-other-shape"))
+            else:
+                cs.append(c_get_region(es, ns, _shape_for(rng, npts)))
         elif u < 0.45:
             npts = rng.randint(1, 24)
             es, ns = _arr(rng, reg, npts)
@@ -190,6 +198,15 @@ def _shape_for(rng, n):
 def impl(case):
     a = case["args"]
     fn = case["fn"]
+    if fn == "get_region" and case["kind"] in ("get_region-axes", "get_region-lists", "get_region-extra-other-shape"):
+        if case["kind"] == "get_region-axes":
+            coords = (np.array(a[0]), np.array(a[1]))
+        elif case["kind"] == "get_region-lists":
+            coords = (list(a[0]), tuple(a[1])) if len(a[0]) % 2 else [list(a[0]), list(a[1])]
+        else:
+            coords = (np.array(a[0]), np.array(a[1]), np.float64(3.5) if len(a[0]) % 2 else np.arange(len(a[0]) + 2.0).reshape(1, -1))
+        r = C.call(vd.get_region, coords)
+        return r if C.is_err(r) else [float(v) for v in r]
     if fn == "get_region":
         e = C.mkarr(a[0], a[2], "a[0]:" + case["op"])
         n = C.mkarr(a[1], a[2], "a[1]:" + case["op"])
